@@ -261,6 +261,99 @@ def integrity_task(p, cfg, rec):
             p.structural('checkIntegrity raises when input #%d is left undriven' % k, did_raise, detail={'fault': k})
 
 
+class Probe(py4hw.Logic):
+    """a leaf without propagate/clock (like Scope/Waveform): its ports register no sinks"""
+    def __init__(self, parent, name, x):
+        super().__init__(parent, name)
+        self.addIn('x', x)
+
+
+def hier_build(s, variant, skip):
+    """a two/three-level hierarchy; every driver goes through drive(), which leaves out driver
+    number `skip` (0 = none).  Returns the list of (driver index, driven wire)."""
+    drivers = []
+
+    def drive(w, thunk):
+        drivers.append(w)
+        if len(drivers) != skip:
+            thunk()
+    a, u, m, o, z = s.wire('a', 2), s.wire('u', 2), s.wire('m', 2), s.wire('o', 2), s.wire('z', 2)
+    drive(a, lambda: Constant(s, 'da', 1, a))
+    drive(u, lambda: Constant(s, 'du', 2, u))
+
+    def body(b):
+        t = b.wire('t', 2)
+        if variant == 'nested':
+            def inner(b2):
+                drive(t, lambda: Buf(b2, 'bt', a, t))
+            D.Box(b, 'in', {'a': a}, {'t': t}, inner)
+        else:
+            drive(t, lambda: Buf(b, 'bt', a, t))
+        drive(m, lambda: Not(b, 'nm', t, m))
+        drive(z, lambda: Constant(b, 'cz', 3, z))          # an output nobody reads
+    D.Box(s, 'blk', {'a': a, 'u': u}, {'m': m, 'z': z}, body)   # input u is not used inside
+    if variant == 'scope':
+        Probe(s, 'probe', z)                                   # z is read only by a leaf that is not a primitive (no sink is registered)
+    drive(o, lambda: Buf(s, 'bo', m, o))                       # o is attached to no port when this is left out
+    return drivers
+
+
+def ports_attached(root, w):
+    n = 0
+    for obj in [root] + list(all_logic(root)):
+        for pt in list(obj.inPorts) + list(obj.outPorts):
+            if pt.wire is w:
+                n += 1
+    return n
+
+
+def all_logic(obj):
+    for c in obj.children.values():
+        yield c
+        yield from all_logic(c)
+
+
+def hier_task(p, cfg, rec):
+    """single removed driver anywhere in a structural hierarchy, including wires nobody reads"""
+    variant = cfg['variant']
+    rec.update(['py4hw.debug.checkIntegrity', 'py4hw.debug.checkPort'])
+    with quiet():
+        n = len(hier_build(py4hw.HWSystem(), variant, 0))
+    sel, sv = core.fresh_range('fault', 0, n)
+    p.assumptions = list(ctx.assumptions)
+
+    def scenario():
+        k = int(sel)
+        with quiet():
+            s = py4hw.HWSystem()
+            drivers = hier_build(s, variant, k)
+            attached = ports_attached(s, drivers[k - 1]) if k else 0
+            raised = None
+            try:
+                py4hw.debug.checkIntegrity(s)
+            except Exception as e:
+                raised = e
+        return (k, drivers[k - 1].name if k else None, attached, raised is not None, repr(raised) if raised else None)
+    res = run_paths(scenario)
+    p.res['states'] += 1
+    p.res['transitions'] += len(res)
+    p.structural('every fault position explored', sorted(r.ret[0] for r in res if r.exc is None) == list(range(n + 1)),
+                 detail={'explored': [r.ret[0] for r in res if r.exc is None]})
+    for r in res:
+        if r.exc is not None:
+            p.structural('integrity scenario completes', False, detail={'exception': repr(r.exc)})
+            continue
+        k, wname, attached, did_raise, msg = r.ret
+        if k == 0:
+            p.structural('checkIntegrity accepts the fully driven hierarchy', not did_raise, detail={'raised': msg})
+        elif attached:
+            p.structural('checkIntegrity raises when the driver of %s (attached to %d ports) is removed' % (wname, attached), did_raise,
+                         detail={'fault': k, 'wire': wname, 'ports attached': attached})
+        else:
+            p.structural('checkIntegrity accepts when the undriven wire %s is attached to no port' % wname, not did_raise,
+                         detail={'fault': k, 'wire': wname, 'raised': msg})
+
+
 def tasks_for(tier):
     quick = tier == 'quick'
     t = [('construction API, template %s, one operation' % k, construct_task, {'template': k, 'first': None}) for k in ('flat', 'two-level')]
@@ -284,6 +377,8 @@ def tasks_for(tier):
             continue
         t.append(('construction API, history starting with op%d parent%d name %s wire%d' % (f[0], f[1], POOL[f[2]], f[3]), construct_task,
                   {'template': 'flat', 'first': f}))
+    for v in ('plain', 'nested', 'scope'):
+        t.append(('integrity of a structural hierarchy (%s), one removed driver at a symbolic position' % v, hier_task, {'variant': v}))
     seen = set()
     for mod, kind in ((c07, 'comb'), (c08, 'comb'), (c09, 'seq')):
         for name, cfg in mod.cfgs(tier):
@@ -303,7 +398,7 @@ def main(argv=None):
         technique='path-complete symbolic execution of the construction API and of checkIntegrity with symbolic selectors (operation, parent, name, wire, fault position); z3 decides selector feasibility',
         assumptions=['histories of one or two operations after a generated template (a system with two wires, a box with one wire, one primitive driver; optionally a nested box); the expected outcome comes from an abstract registry model, not from the implementation state',
                      'a failed rename/reparent may leave the moved wire itself unregistered; the statement only demands that the earlier owner of the name stays in place',
-                     'integrity clause: inputs driven by Constant blocks; single fault = one input left undriven'],
+                     'integrity clause: inputs driven by Constant blocks; single fault = one input left undriven (library blocks) or one driver removed at any position of a generated structural hierarchy, including wires nobody reads, unused inputs and wires attached to no port'],
         bounds={'names': POOL, 'operations': 'Wire(), primitive construction (child name / second driver), rename, reparent, reparentAndRename',
                 'integrity': 'one configuration per library block class of the C07/C08/C09 grids (thorough: up to 4)'},
         trusted_base=['symx selector forks (path-complete)', 'oracle predicates in checks/c11.py'])
